@@ -98,7 +98,9 @@ thread_local std::unique_ptr<qsbr_per_thread>
 [[nodiscard]] qsbr_state::type
 qsbr_state::atomic_fetch_dec_threads_in_previous_epoch(
     std::atomic<qsbr_state::type>& word) noexcept {
+  UNODB_DETAIL_VERIF_SCHED(qsbr_fetch_sub, &word);
   const auto old_word = word.fetch_sub(1, std::memory_order_acq_rel);
+  UNODB_DETAIL_VERIF_OBS(qsbr_fetch_sub, &word, old_word);
 
   UNODB_DETAIL_ASSERT(get_threads_in_previous_epoch(old_word) > 0);
   assert_invariants(old_word);
@@ -171,9 +173,18 @@ void add_to_orphan_list(
   auto* const list_node_ptr = orphan_list_node.release();
 
   list_node_ptr->requests = std::move(requests);
+  UNODB_DETAIL_VERIF_SCHED(orphan_load, &orphan_list);
   list_node_ptr->next = orphan_list.load(std::memory_order_acquire);
+  UNODB_DETAIL_VERIF_OBS(orphan_load, &orphan_list,
+                         UNODB_DETAIL_VERIF_BITS(list_node_ptr->next));
 
   while (true) {
+    // The observation carries the expected and the desired value; on the
+    // supported targets the CAS succeeds iff the expected value is current.
+    UNODB_DETAIL_VERIF_SCHED(orphan_cas, &orphan_list);
+    UNODB_DETAIL_VERIF_OBS(orphan_cas, &orphan_list,
+                           UNODB_DETAIL_VERIF_BITS(list_node_ptr->next),
+                           UNODB_DETAIL_VERIF_BITS(list_node_ptr));
     if (UNODB_DETAIL_LIKELY(orphan_list.compare_exchange_weak(
             list_node_ptr->next, list_node_ptr, std::memory_order_acq_rel,
             std::memory_order_acquire)))
@@ -190,7 +201,16 @@ void add_to_orphan_list(
 [[nodiscard]] detail::dealloc_vector_list_node* take_orphan_list(
     std::atomic<detail::dealloc_vector_list_node*>& orphan_list
     UNODB_DETAIL_LIFETIMEBOUND) noexcept {
+#ifdef UNODB_DETAIL_VERIF_HOOKS
+  UNODB_DETAIL_VERIF_SCHED(orphan_xchg, &orphan_list);
+  auto* const verif_result =
+      orphan_list.exchange(nullptr, std::memory_order_acq_rel);
+  UNODB_DETAIL_VERIF_OBS(orphan_xchg, &orphan_list,
+                         UNODB_DETAIL_VERIF_BITS(verif_result));
+  return verif_result;
+#else
   return orphan_list.exchange(nullptr, std::memory_order_acq_rel);
+#endif
 }
 
 /// Free pending requests and orphan \a list itself.
@@ -246,6 +266,8 @@ qsbr_epoch qsbr::register_thread() noexcept {
       const auto new_state =
           qsbr_state::inc_thread_count_and_threads_in_previous_epoch(old_state);
 
+      UNODB_DETAIL_VERIF_SCHED(qsbr_cas, &state);
+      UNODB_DETAIL_VERIF_OBS(qsbr_cas, &state, old_state, new_state);
       if (UNODB_DETAIL_LIKELY(state.compare_exchange_weak(
               old_state, new_state, std::memory_order_acq_rel,
               std::memory_order_acquire)))
@@ -264,6 +286,8 @@ qsbr_epoch qsbr::register_thread() noexcept {
     // Epoch change in progress - try to bump the thread count only
     const auto new_state = qsbr_state::inc_thread_count(old_state);
 
+    UNODB_DETAIL_VERIF_SCHED(qsbr_cas, &state);
+    UNODB_DETAIL_VERIF_OBS(qsbr_cas, &state, old_state, new_state);
     if (UNODB_DETAIL_LIKELY(state.compare_exchange_weak(
             old_state, new_state, std::memory_order_acq_rel,
             std::memory_order_acquire))) {
@@ -272,6 +296,7 @@ qsbr_epoch qsbr::register_thread() noexcept {
       // state as a no-op, but that trades spinning here for more work in a
       // hotter path.
       while (true) {
+        UNODB_DETAIL_VERIF_SCHED(qsbr_spin, &state);
         old_state = get_state();
         const auto new_epoch = qsbr_state::get_epoch(old_state);
         if (new_epoch != old_epoch) return new_epoch;
@@ -290,7 +315,9 @@ void qsbr::unregister_thread(std::uint64_t quiescent_states_since_epoch_change,
 #endif
 {
   bool epoch_change_prepared = false;
+  UNODB_DETAIL_VERIF_SCHED(qsbr_load, &state);
   auto old_state = state.load(std::memory_order_acquire);
+  UNODB_DETAIL_VERIF_OBS(qsbr_load, &state, old_state);
 
   while (true) {
     const auto old_threads_in_previous_epoch =
@@ -302,6 +329,8 @@ void qsbr::unregister_thread(std::uint64_t quiescent_states_since_epoch_change,
 
       // Epoch change in progress - try to decrement the thread count only
       const auto new_state = qsbr_state::dec_thread_count(old_state);
+      UNODB_DETAIL_VERIF_SCHED(qsbr_cas, &state);
+      UNODB_DETAIL_VERIF_OBS(qsbr_cas, &state, old_state, new_state);
       if (UNODB_DETAIL_LIKELY(state.compare_exchange_weak(
               old_state, new_state, std::memory_order_acq_rel,
               std::memory_order_acquire))) {
@@ -343,6 +372,8 @@ void qsbr::unregister_thread(std::uint64_t quiescent_states_since_epoch_change,
       }
     }
 
+    UNODB_DETAIL_VERIF_SCHED(qsbr_cas, &state);
+    UNODB_DETAIL_VERIF_OBS(qsbr_cas, &state, old_state, new_state);
     if (UNODB_DETAIL_LIKELY(state.compare_exchange_weak(
             old_state, new_state, std::memory_order_acq_rel,
             std::memory_order_acquire))) {
@@ -479,6 +510,11 @@ void qsbr::epoch_change_barrier_and_handle_orphans(
 
   if (UNODB_DETAIL_LIKELY(!single_thread_mode)) {
     detail::dealloc_vector_list_node* new_previous_requests = nullptr;
+    UNODB_DETAIL_VERIF_SCHED(orphan_cas_move,
+                             &orphaned_previous_interval_dealloc_requests);
+    UNODB_DETAIL_VERIF_OBS(orphan_cas_move,
+                           &orphaned_previous_interval_dealloc_requests, 0,
+                           UNODB_DETAIL_VERIF_BITS(orphaned_current_requests));
     if (UNODB_DETAIL_UNLIKELY(
             !orphaned_previous_interval_dealloc_requests
                  .compare_exchange_strong(
@@ -489,9 +525,14 @@ void qsbr::epoch_change_barrier_and_handle_orphans(
       // everybody else add at the list head. The list should be short in
       // general case as not too many threads could have quit since we took the
       // previous batch.
+      UNODB_DETAIL_VERIF_SCHED(orphan_append,
+                               &orphaned_previous_interval_dealloc_requests);
       while (new_previous_requests->next != nullptr)
         new_previous_requests = new_previous_requests->next;
       new_previous_requests->next = orphaned_current_requests;
+      UNODB_DETAIL_VERIF_OBS(orphan_append,
+                             &orphaned_previous_interval_dealloc_requests,
+                             UNODB_DETAIL_VERIF_BITS(orphaned_current_requests));
     }
   } else {
     free_orphan_list(orphaned_current_requests);
@@ -502,12 +543,16 @@ qsbr_epoch qsbr::change_epoch(qsbr_epoch current_global_epoch,
                               bool single_thread_mode) noexcept {
   epoch_change_barrier_and_handle_orphans(single_thread_mode);
 
+  UNODB_DETAIL_VERIF_SCHED(qsbr_load, &state);
   auto old_state = state.load(std::memory_order_acquire);
+  UNODB_DETAIL_VERIF_OBS(qsbr_load, &state, old_state);
   while (true) {
     UNODB_DETAIL_ASSERT(current_global_epoch ==
                         qsbr_state::get_epoch(old_state));
 
     const auto new_state = qsbr_state::inc_epoch_reset_previous(old_state);
+    UNODB_DETAIL_VERIF_SCHED(qsbr_cas, &state);
+    UNODB_DETAIL_VERIF_OBS(qsbr_cas, &state, old_state, new_state);
     if (UNODB_DETAIL_LIKELY(state.compare_exchange_weak(
             old_state, new_state, std::memory_order_acq_rel,
             std::memory_order_acquire))) {
